@@ -111,7 +111,7 @@ func (g *gen) errorInOut(name string, typs []types.Type) (inTyp types.Type, outs
 	if eres.Len() != 2 {
 		return nil, nil, fmt.Errorf("%s, the second function argument does not have two results, but has %d resulting parameters", name, eres.Len())
 	}
-	if !derive.IsError(eres.At(1).Type()) {
+	if !derive.IsErrorType(eres.At(1).Type()) {
 		return nil, nil, fmt.Errorf("%s, the second argument is a function, but its second argument is not an error: %s", name, eres.At(1).Type())
 	}
 	elemTyp := eres.At(0).Type()
